@@ -69,6 +69,13 @@ theorem lastIsRet_aux : ∀ (s : Stmt),
                 | some ex =>
                   simp only [exec] at ha
                   cases hv : evalE m P env ex <;> rw [hv] at ha <;> simp at ha
+            | ret2 x1 x2 =>
+              cases n with
+              | zero => simp [exec] at ha
+              | succ m =>
+                simp only [exec] at ha
+                cases hv : evalE m P env x1 <;> rw [hv] at ha <;> simp at ha
+                cases hw : evalE m P env x2 <;> rw [hw] at ha <;> simp at ha
             | _ => simp [lastIsRet] at hl
           | ret v => simp
           | brk e1 => simp
@@ -121,13 +128,13 @@ open NeoModel.MiniVm NeoModel.MiniVm.Asm NeoModel.MiniGo NeoModel.Compile
 
 /-- what a CALL of a function achieves, by the outcome of its body. -/
 def CallPost (C : Code) (σ : State) (rest : List Val) : SOut → Prop
-  | .ret v => Reach C σ { σ with pc := σ.pc + 1, stack := v.toList ++ rest }
+  | .ret v => Reach C σ { σ with pc := σ.pc + 1, stack := v ++ rest }
   | .norm _ => Reach C σ { σ with pc := σ.pc + 1, stack := rest }
   | .brk _ _ => False
   | .cont _ _ => False
 
 theorem fnLabel_of_find {P : Prog} {f : String} {d : FuncDecl} (h : P.find f = some d) :
-    ∃ i, P[i]? = some d ∧ fnLabel P f = i ∧ fnRes P f = (if d.hasResult then 1 else 0) := by
+    ∃ i, P[i]? = some d ∧ fnLabel P f = i ∧ fnRes P f = d.nres := by
   obtain ⟨i, hi, hl⟩ := find_table h
   exact ⟨i, hi, by simp [fnLabel, hl], by simp [fnRes, hl]⟩
 
@@ -207,6 +214,7 @@ structure AllOK (P : Prog) (C : Code) (fuel : Nat) : Prop where
   switch : ∀ cx : Ctx, cx.funcs = funcTable P → SwitchOK P C cx fuel
   call : CallOK P C fuel
   callS : CallSOK P C fuel
+  call2 : Call2OK P C fuel
 
 theorem callOK_succ {P : Prog} {C : Code} {fuel : Nat} (hpc : ProgCode C P)
     (ihS : ∀ cx : Ctx, cx.funcs = funcTable P → StmtFOK P C cx fuel) (hall : ∀ d ∈ P, Allowed [] d.body) :
@@ -227,14 +235,15 @@ theorem callOK_succ {P : Prog} {C : Code} {fuel : Nat} (hpc : ProgCode C P)
         have hrun := call_run hpc ihS hall hfind hlen hex hs hf hdep
         cases out with
         | ret r =>
-          cases r with
-          | some v' =>
+          match r, hc, hrun with
+          | [v'], hc, hrun =>
             simp only at hc
             split at hc
             · cases hc
               simpa [CallPost] using hrun
             · cases hc
-          | none => simp at hc
+          | [], hc, _ => simp at hc
+          | _ :: _ :: _, hc, _ => simp at hc
         | norm e => simp at hc
         | brk l e => simp at hc
         | cont l e => simp at hc
@@ -265,25 +274,56 @@ theorem callSOK_succ {P : Prog} {C : Code} {fuel : Nat} (hpc : ProgCode C P)
         have hrun := call_run hpc ihS hall hfind hlen hex hs hf hdep
         cases out with
         | ret r =>
-          cases r with
-          | some v' =>
-            simp only at hc
-            split at hc
-            · rename_i hh
-              exact ⟨[v'], by simp [hres, hh], by simpa [CallPost] using hrun⟩
-            · cases hc
-          | none =>
-            simp only at hc
-            split at hc
-            · cases hc
-            · rename_i hh
-              exact ⟨[], by simp [hres, hh], by simpa [CallPost] using hrun⟩
+          simp only at hc
+          split at hc
+          · rename_i hh
+            exact ⟨r, by rw [hres]; simpa using hh, by simpa [CallPost] using hrun⟩
+          · cases hc
         | norm e =>
           simp only at hc
           split at hc
-          · cases hc
           · rename_i hh
-            exact ⟨[], by simp [hres, hh], by simpa [CallPost] using hrun⟩
+            exact ⟨[], by rw [hres]; simp at hh; simp [hh], by simpa [CallPost] using hrun⟩
+          · cases hc
+        | brk l e => simp at hc
+        | cont l e => simp at hc
+      | panic => rw [hex] at hc; simp at hc
+      | overflow => rw [hex] at hc; simp at hc
+      | stuck => rw [hex] at hc; simp at hc
+      | timeout => rw [hex] at hc; simp at hc
+    · have hne : (d.params.length != vs.length) = true := by simpa using hlen
+      simp [hne] at hc
+
+theorem call2OK_succ {P : Prog} {C : Code} {fuel : Nat} (hpc : ProgCode C P)
+    (ihS : ∀ cx : Ctx, cx.funcs = funcTable P → StmtFOK P C cx fuel) (hall : ∀ d ∈ P, Allowed [] d.body) :
+    Call2OK P C (fuel + 1) := by
+  intro f vs v w σ rest hc hs hf hdep
+  simp only [callF2] at hc
+  cases hfind : P.find f with
+  | none => rw [hfind] at hc; simp at hc
+  | some d =>
+    rw [hfind] at hc
+    simp only at hc
+    by_cases hlen : d.params.length = vs.length
+    · have hne : (d.params.length != vs.length) = false := by simp [hlen]
+      simp only [hne, Bool.false_eq_true, if_false] at hc
+      cases hex : exec fuel P { frames := [[]], args := d.params.zip vs } (.block d.body) with
+      | ok out =>
+        rw [hex] at hc
+        have hrun := call_run hpc ihS hall hfind hlen hex hs hf hdep
+        cases out with
+        | ret r =>
+          match r, hc, hrun with
+          | [v', w'], hc, hrun =>
+            simp only at hc
+            split at hc
+            · cases hc
+              simpa [CallPost] using hrun
+            · cases hc
+          | [], hc, _ => simp at hc
+          | [_], hc, _ => simp at hc
+          | _ :: _ :: _ :: _, hc, _ => simp at hc
+        | norm e => simp at hc
         | brk l e => simp at hc
         | cont l e => simp at hc
       | panic => rw [hex] at hc; simp at hc
@@ -300,16 +340,17 @@ theorem allOK {P : Prog} {C : Code} (hpc : ProgCode C P) (hall : ∀ d ∈ P, Al
   | zero =>
     refine ⟨fun cx sc env _ => exprFOK_zero P C cx sc env, fun cx _ => stmtFOK_zero P C cx, fun cx _ => iterOK_zero P C cx,
       fun cx _ => loopOK_zero P C cx, fun cx _ => bodyOK_zero P C cx, fun cx _ => casesOK_zero P C cx,
-      fun cx _ => switchOK_zero P C cx, ?_, ?_⟩
+      fun cx _ => switchOK_zero P C cx, ?_, ?_, ?_⟩
     · intro f vs v σ rest hc; simp [callF] at hc
     · intro f vs σ rest hc; simp [callS] at hc
+    · intro f vs v w σ rest hc; simp [callF2] at hc
   | succ n ih =>
-    refine ⟨?_, ?_, ?_, ?_, ?_, ?_, ?_, callOK_succ hpc ih.stmt hall, callSOK_succ hpc ih.stmt hall⟩
+    refine ⟨?_, ?_, ?_, ?_, ?_, ?_, ?_, callOK_succ hpc ih.stmt hall, callSOK_succ hpc ih.stmt hall, call2OK_succ hpc ih.stmt hall⟩
     · intro cx sc env htab
       exact exprFOK_succ P C cx sc env n hpc.nodup htab (ih.expr cx sc env htab) ih.call
     · intro cx htab
       exact stmtFOK_succ P C cx n hpc.nodup htab (fun sc env => ih.expr cx sc env htab) (ih.stmt cx htab) (ih.loop cx htab)
-        (ih.switch cx htab) ih.callS
+        (ih.switch cx htab) ih.callS ih.call2
     · intro cx htab
       exact iterOK_succ P C cx n hpc.nodup (fun sc env => ih.expr cx sc env htab) (ih.stmt cx htab) (ih.iter cx htab)
     · intro cx htab
